@@ -5,6 +5,7 @@ from vlib import finish
 ASSUME = [
     "the reference receiver (harness/drivers/puppet.go) is written from the protocol description in receive.go's header; it always reads while it sends (as any real receiver does)",
     "requests for ids of hard-link members are not scripted as 'invalid' (the statement leaves them open)",
+    "the stream endpoints decode into the message the caller passes without clearing it first (like the repository's test connection and the vtproto gRPC codec): fields the wire omits keep their previous value",
     "id numbering is judged against the STAT positions observed on the wire; DATA payloads against the bytes of the materialised source file at the running offset",
 ]
 PFX = {"C06"}
@@ -60,8 +61,19 @@ def _no_end_marker(evs):
     return None
 
 
+def _mc(run):
+    """algorithm layer: the packet loops against a stream that decodes into the caller's message without clearing it"""
+    from vlib import Inconclusive
+    run.tlc_mc("DecodeIntoMC", "DecodeIntoMC.cfg", label="alg/packet loop of send.go (fresh packet per iteration) sees exactly what was sent, all message sequences <= 3 over type, id in 0..2")
+    run.tlc_mc("DecodeIntoMC", "DecodeIntoMC_callerResets.cfg", label="alg/packet loop of receive.go (one packet, reset by the loop)")
+    r = run.tlc_mc("DecodeIntoMC", "DecodeIntoMC_reuse.cfg", label="sanity: a loop that reuses its packet without resetting it (seeded variant) must be rejected", expect_error=True)
+    if "Invariant Faithful is violated" not in r["out"]:
+        raise Inconclusive("DecodeIntoMC sanity configuration was not rejected: the model is vacuous")
+    run.tlc_mc("DecodeIntoMC", "DecodeIntoMC_reuseResettingStream.cfg", label="alg: the same loop behind a stream that clears the message passes - hence the harness endpoints do not clear it")
+
+
 def check(run):
-    return syncfam.run_family(run, "C06", "wire", PFX, extra=["-what", "sender"], name="wire-sender", assumptions=ASSUME, witness=True, selftests=[
+    return syncfam.run_family(run, "C06", "wire", PFX, extra=["-what", "sender"], name="wire-sender", assumptions=ASSUME, witness=True, mc=_mc, selftests=[
         ("mark one DATA payload as not matching the file slice", _bad_slice),
         ("relabel one DATA packet with an id that was never requested", _unrequested),
         ("remove the end-of-stats marker from a successful session", _no_end_marker)])
